@@ -74,6 +74,8 @@ type FuncVC struct {
 	errs         []string
 	topFrame     *Frame
 	forceWrap    bool
+	lemmaReveal  []string
+	lemmaEnv     *TEnv
 	outDir       string
 	specInfo     map[string]*specFnInfo
 	specOrder    []string
@@ -106,6 +108,14 @@ type loopInfo struct {
 	headPhis  map[*ssa.Phi]string
 	measure   string
 	isRange   *ssa.Phi // rangeindex phi if any
+	pending   []*pendingObl
+	frameKeys []string
+	frameCond map[string]string
+}
+
+type pendingObl struct {
+	name, kind, text string
+	goals            []string
 }
 
 type retPoint struct {
@@ -145,6 +155,7 @@ type Frame struct {
 }
 
 type dbgRef struct {
+	obj   types.Object
 	block *ssa.BasicBlock
 	idx   int
 	val   ssa.Value
@@ -191,8 +202,11 @@ func (vc *FuncVC) define(base, sort, term string) string {
 	if !strings.ContainsAny(term, " (") {
 		return term
 	}
-	n := vc.fresh(base, sort)
-	vc.script.add(fmt.Sprintf("(assert (= %s %s))", n, term))
+	// a macro, not a constant with an equation: the solvers see through it, so
+	// arithmetic normalises syntactically (k+1-1 = k), which E-matching needs
+	vc.nfresh++
+	n := fmt.Sprintf("%s!%d", sym(base), vc.nfresh)
+	vc.script.add(fmt.Sprintf("(define-fun %s () %s %s)", n, sort, term))
 	return n
 }
 
@@ -500,3 +514,6 @@ func (vc *FuncVC) workDir() string {
 	}
 	return "/verif/out/smt/_misc"
 }
+
+// fnTag distinguishes the local-variable keys of different verification units.
+func (f *Frame) fnTag() string { return sym(f.vc.key) + ":" }
